@@ -106,7 +106,7 @@ Definition xi_v (x : nat * xitem) : val := xitem_v (snd x).
              files: the raw BYTES of every file;  lim < 0: no limit;  task / qpcfg: Pipeline_Tasks.v_task / v_qpcfg
     output = (1 min_items batches same table_ok) | (0) init fails | (-777) a pipeline call panics | (-4) fuel | (-5) outside
              batches: lists of items (input target tinput) *)
-Definition run_bloader (v : val) : val :=
+Definition run_bloader_with (opq : nat -> item -> info -> res (item * info)) (unm : pcfg -> bool) (v : val) : val :=
   let files := v_bfiles (v_nth 1 v) in
   let s := v_strategy (v_nth 2 v) in
   let seed := v_hl (v_nth 3 v) in
@@ -114,11 +114,11 @@ Definition run_bloader (v : val) : val :=
   let p := v_pcfg (v_nth 5 v) in
   let q := v_qpcfg (v_nth 7 v) in
   let total := sum_nat (map count_lines files) in
-  if negb (pcfg_dom p) || negb (qpcfg_dom q) || p_has_unmodelled p || qp_has_opaque q then v_outside else
+  if negb (pcfg_dom p) || negb (qpcfg_dom q) || unm p || qp_has_opaque q then v_outside else
   match v_task (v_nth 6 v) with
   | None => L [I 0%Z]
   | Some t =>
-    match loader_run_tb opq_std qopq_none p t q (v_nat (v_nth 8 v)) seed epoch s files
+    match loader_run_tb opq qopq_none p t q (v_nat (v_nth 8 v)) seed epoch s files
                         (v_lim total (v_nth 9 v)) (v_nat (v_nth 10 v)) (v_nat (v_nth 11 v)) (v_nat (v_nth 12 v))
                         (v_nat (v_nth 13 v)) (v_bool (v_nth 14 v)) (v_bool (v_nth 15 v)) (v_nat (v_nth 16 v))
                         (v_nat (v_nth 17 v)) (v_ty (v_nth 18 v)) with
@@ -129,10 +129,15 @@ Definition run_bloader (v : val) : val :=
     end
   end.
 
-Definition run_C08y (v : val) : val :=
-  if Z.eqb (C08_Pipeline.kind v) (-3) then run_bloader v
-  else if Z.eqb (C08_Pipeline.kind v) (-4) then run_item v
+Definition run_bloader (v : val) : val := run_bloader_with opq_std p_has_unmodelled v.
+
+(** [run_C08y] with a given opaque-stage function (Pipeline_Spell.v plugs in the spelling corruption) *)
+Definition run_C08y_with (opq : nat -> item -> info -> res (item * info)) (unm : pcfg -> bool) (v : val) : val :=
+  if Z.eqb (C08_Pipeline.kind v) (-3) then run_bloader_with opq unm v
+  else if Z.eqb (C08_Pipeline.kind v) (-4) then run_item_with opq unm v
   else run_C08x v.
+
+Definition run_C08y (v : val) : val := run_C08y_with opq_std p_has_unmodelled v.
 
 Definition check_C08y (v o : val) : bool :=
   if Z.eqb (C08_Pipeline.kind v) (-3) then check_loader v o
